@@ -279,13 +279,13 @@ pred ChainDef() := (forall k string :: {ChainLen(k)} ChainLen(k) >= 0 && (!(k in
   && (forall k string, i int :: {B0[k][i]} k in B0dom && 0 <= i && i < B0len[k] ==> ChainLen(k) >= 1 + ChainLen(B0[k][i].Name))
 
 func Resolve variant exact standalone returns (out, err)
-  props C11
+  props C11 C05
   requires @acyclic-book Acyclic() && WfDBI(db) && Snapshot(db) && ChainDef()
   requires @long-chain exists k string :: k in db && ChainLen(k) >= c.MaxDepth
   modifies heap(DBNode)
   calluse resolveNode#1 any
   loop 1 { invariant @wf WfDBI(db) && db == old(db) && c == old(c) }
-  ensures @exact [C11] err != nil
+  ensures @exact [C11 C05] err != nil
 
 // the same for the deprecated struct API
 func (Resolver).resolveNode variant any standalone returns (err)
